@@ -1,5 +1,5 @@
 """C20 — a terminal abort always surfaces as an error identifying its result code."""
-from .. import vlib, layouts, client_cases as cc
+from .. import vlib, layouts, spec, client_cases as cc
 from ..common import proof_part, report_diffs
 from .c07 import TB, run_scenarios, judge
 
@@ -12,7 +12,7 @@ def check(run):
     proof_part(run, "C20")
     rng, th = run.rng, run.tier == "thorough"
     S = cc.Spec()
-    known = {e[0]: e[2] for e in layouts.load()["error_table"]}
+    known = spec.result_codes()          # the specification's table, not the code's
     scs, labels = [], []
 
     def add(sc, label):
